@@ -602,3 +602,15 @@ class CallProxy (object):
     raise ReventError("callProxy object is gone!")
   def __str__ (self):
     return "<CallProxy for " + self.name + ">"
+
+  # A weak handler must compare equal to the bound method it wraps, or
+  # removeListener(handler) can never find it.
+  def __eq__ (self, other):
+    if isinstance(other, CallProxy):
+      return self is other
+    o = self.obj() if self.obj is not None else None
+    return (o is not None and getattr(other, '__self__', None) is o
+            and getattr(other, '__func__', None) is self.method)
+  def __ne__ (self, other):
+    return not self.__eq__(other)
+  __hash__ = object.__hash__
